@@ -24,8 +24,33 @@ def r1(cx):
              "the table writer feeds the filter with something other than key.user_key")
     # whenever a filter block exists, every data entry is also added to it: no path to BlockWriter::add on the
     # `filter_block is Some` side avoids add_key
-    from ..core import option_edges
+    from ..core import option_edges, bool_edges
     never_after(cx, w, ba, ak, "the filter entry is added before the data entry (same call)")
+    am = [c for c in w.calls if c.bb in w.live and c.primary.split("::")[-1] in ("as_mut", "as_ref") and c.args and "filter_block" in origin_of_operand(w, c.args[0]).field_names()
+          and len(c.dest) == 1 and c.target is not None]
+    some_t = []
+    for c in am:
+        e, sw = option_edges(w, c.dest[0], c.target)
+        if e:
+            some_t += [t for t, lab in e.items() if lab == frozenset({"1"})]
+    if not some_t:
+        raise AnchorMissing("TableWriter::add: the `filter_block is Some` edge was not recognised")
+    r = w.reachable_from(some_t, avoid={c.bb for c in ak})
+    skipping = [c for c in ba if c.bb in r]
+    ok_skip = True
+    why = ""
+    if skipping:
+        # a skip is sound only for an entry whose user key EQUALS one already fed (adding it again sets the same bits):
+        # every call-computed condition that decides whether add_key runs must be an equality test
+        for c2 in w.calls:
+            if c2.bb in w.live and c2.bb in r and len(c2.dest) == 1 and w.local_ty(c2.dest[0]) == "bool" and c2 not in ak and c2.target is not None \
+                    and bool_edges(w, c2.dest[0], c2.target)[0] is not None:
+                if c2.primary.split("::")[-1] not in ("eq", "ne"):
+                    ok_skip = False
+                    why = c2.primary.split("::")[-1]
+    cx.check(not skipping or ok_skip, "with a filter configured, every entry's user key is fed to it (only an exact repeat may be skipped)", "filter-skips-entry", ak[0].where(),
+             "TableWriter::add can write a data entry without feeding its user key to the filter, decided by `%s` (not an equality of user keys): a key the test wrongly takes "
+             "for a repeat (a key that extends the previous one by bytes that also start the trailer) is absent from the filter, and Table::get answers `not found` for a stored key" % why)
     g = f.body("Table::get")
     mc = sites(cx, g, "FilterBlockReader::may_contain")
     o = origin_of_operand(g, mc[0].args[1], through_calls="all")
